@@ -64,6 +64,12 @@ pub struct TextCase {
     pub heavy: Option<(u16, u16, u16)>,
     /// (term selector, increasing targets as fractions of the doc count)
     pub seeks: Vec<(u16, Vec<u16>)>,
+    /// add a value of a second text field (`aux`) after every value of `body` (interleaved field values)
+    #[serde(default)]
+    pub aux_every: bool,
+    /// (doc selector, n): that document gets n more one-word values (more than 32 (field, value) entries)
+    #[serde(default)]
+    pub many_values: Option<(u16, u8)>,
 }
 
 /// tokens of a value as the analyser emits them: (text, position within the value); None = slot without token
@@ -117,14 +123,16 @@ impl Sub for Text {
             prop::collection::vec(prop_oneof![2 => Just(0u16), 1 => Just(1u16), 2 => Just(127u16), 3 => Just(128u16), 3 => Just(129u16), 1 => Just(256u16), 1 => Just(257u16), 1 => Just(384u16), 1 => Just(5000u16), 2 => Just(u16::MAX)], 3..4),
             prop::option::weighted(0.4, (any::<u16>(), 0u16..6, prop_oneof![1 => 100u16..140, 1 => 250u16..400])),
             prop::collection::vec((any::<u16>(), prop::collection::vec(any::<u16>(), 1..14)), 0..8),
+            prop::bool::weighted(0.4),
+            prop::option::weighted(0.3, (any::<u16>(), 14u8..45)),
         )
-            .prop_map(|(tok, record, norms, (docs, repeat), marks, heavy, seeks)| TextCase { tok, record, norms, docs, repeat, marks, heavy, seeks })
+            .prop_map(|(tok, record, norms, (docs, repeat), marks, heavy, seeks, aux_every, many_values)| TextCase { tok, record, norms, docs, repeat, marks, heavy, seeks, aux_every, many_values })
             .boxed()
     }
     fn mandatory_labels(&self, _t: Tier) -> Vec<&'static str> {
         vec![
             "list_len=128", "list_len=129", "list_len=127", "list_len>256", "list_len>20000", "tf>128", "term>=256B", "term=65530B", "token_dropped>MAX", "token_removed>40B", "multi_valued_positions", "empty_value",
-            "tok:default", "tok:whitespace", "tok:raw", "record:basic", "record:freqs", "record:positions", "norms_off", "docs>=20000", "seek_crosses_block", "block_api",
+            "tok:default", "tok:whitespace", "tok:raw", "record:basic", "record:freqs", "record:positions", "norms_off", "docs>=20000", "seek_crosses_block", "block_api", "interleaved_fields", "doc_with>32_field_values",
         ]
     }
     fn run(&self, c: &TextCase, cx: &Ctx) -> CaseResult {
@@ -140,6 +148,7 @@ impl Sub for Text {
         };
         let mut sb = Schema::builder();
         let body = sb.add_text_field("body", TextOptions::default().set_indexing_options(TextFieldIndexing::default().set_tokenizer(tokenizer).set_index_option(record).set_fieldnorms(c.norms)));
+        let aux = sb.add_text_field("aux", TextOptions::default().set_indexing_options(TextFieldIndexing::default().set_tokenizer("raw").set_index_option(IndexRecordOption::WithFreqsAndPositions)));
         let index = Index::create_in_ram(sb.build());
         let wr = writer(&index, WriterCfg { table_bits: 12, ..Default::default() }).or_fail("INFRA:writer")?;
         wr.set_merge_policy(Box::new(NoMergePolicy));
@@ -159,10 +168,19 @@ impl Sub for Text {
             let i = idx(sel, docs.len());
             docs[i].push(vec![w; count as usize]);
         }
+        if let (Some((sel, n)), false) = (c.many_values, docs.is_empty()) {
+            let i = idx(sel, docs.len());
+            for k in 0..n {
+                docs[i].push(vec![(k % 5) as u16]);
+            }
+        }
         if docs.is_empty() {
             cx.label("empty_corpus");
             return Ok(());
         }
+        // model of the aux field: doc -> positions of the single term "x" (k-th value at position 2k)
+        let mut aux_model: BTreeMap<u32, Vec<u32>> = BTreeMap::new();
+        let mut max_entries = 0usize;
         // model: term -> doc -> positions ; tokens per doc
         let mut model: BTreeMap<Vec<u8>, BTreeMap<u32, Vec<u32>>> = BTreeMap::new();
         let mut ntokens: Vec<u32> = vec![0; docs.len()];
@@ -173,9 +191,14 @@ impl Sub for Text {
             if values.iter().filter(|v| !v.is_empty()).count() >= 2 {
                 multi_valued = true;
             }
-            for v in values {
+            max_entries = max_entries.max(values.len() * if c.aux_every { 2 } else { 1 });
+            for (vi, v) in values.iter().enumerate() {
                 let text: Vec<String> = v.iter().map(|w| word(*w)).collect();
                 doc.add_text(body, text.join(" "));
+                if c.aux_every {
+                    doc.add_text(aux, "x");
+                    aux_model.entry(d as u32).or_default().push(2 * vi as u32);
+                }
                 if v.is_empty() {
                     empty_value = true;
                 }
@@ -286,6 +309,25 @@ impl Sub for Text {
             }
         }
         cx.label("block_api");
+        // 3b. the interleaved second field: term "x" in every document that has values, k-th value at position 2k
+        if c.aux_every {
+            let ainv = seg.inverted_index(aux).or_fail("inverted_index_failed")?;
+            let term = Term::from_field_text(aux, "x");
+            match ainv.read_postings(&term, IndexRecordOption::WithFreqsAndPositions).or_fail("read_postings_failed")? {
+                None => ensure!(aux_model.is_empty(), "aux_term_missing", "{} documents have aux values", aux_model.len()),
+                Some(mut p) => {
+                    for (d, ps) in &aux_model {
+                        ensure!(p.doc() == *d, "aux_posting_doc_differs", "got doc {} expected {d}", p.doc());
+                        p.positions(&mut positions);
+                        ensure!(&positions == ps, "aux_positions_differ", "doc {d}: {:?} expected {:?} (values of two fields were added interleaved)", &positions[..positions.len().min(24)], &ps[..ps.len().min(24)]);
+                        p.advance();
+                    }
+                    ensure!(p.doc() == TERMINATED, "aux_posting_list_too_long", "");
+                }
+            }
+            cx.label("interleaved_fields");
+        }
+        cx.label_if(max_entries > 32, "doc_with>32_field_values");
         // 4. seek programs
         let terms: Vec<&Vec<u8>> = model.keys().collect();
         let mut crossed = false;
@@ -370,6 +412,10 @@ pub struct TDoc {
     pub facet: Vec<Vec<u8>>,
     /// JSON: (key selector, value kind selector, value)
     pub json: Vec<(u8, u8, i16)>,
+    /// further JSON values of the same field (each an object {k<key>: "w<v> w<v+1>"}): positions of a path continue
+    /// across the values of one document
+    #[serde(default)]
+    pub json_more: Vec<(u8, u8)>,
 }
 #[derive(Clone, Debug, Serialize, Deserialize)]
 pub struct TypedCase {
@@ -434,12 +480,13 @@ impl Sub for Typed {
             prop::collection::vec(prop_oneof![3 => 0u16..6, 1 => any::<u16>()], 0..2),
             prop::collection::vec(prop::collection::vec(0u8..3, 1..4), 0..3),
             prop::collection::vec((0u8..4, 0u8..4, -3i16..4), 0..4),
+            prop::collection::vec((0u8..3, 0u8..4), 0..4),
         )
-            .prop_map(|(u, i, f, date, b, bytes, ip, facet, json)| TDoc { u, i, f, date, b, bytes, ip, facet, json });
+            .prop_map(|(u, i, f, date, b, bytes, ip, facet, json, json_more)| TDoc { u, i, f, date, b, bytes, ip, facet, json, json_more });
         (prop::collection::vec(doc, 0..50), prop_oneof![3 => Just(1u8), 1 => 4u8..8]).prop_map(|(docs, repeat)| TypedCase { docs, repeat }).boxed()
     }
     fn mandatory_labels(&self, _t: Tier) -> Vec<&'static str> {
-        vec!["u64", "i64", "f64", "date", "bool", "bytes", "ip", "facet", "json", "list_len>128", "extreme_values"]
+        vec!["u64", "i64", "f64", "date", "bool", "bytes", "ip", "facet", "json", "json_multi_value_positions", "list_len>128", "extreme_values"]
     }
     fn run(&self, c: &TypedCase, cx: &Ctx) -> CaseResult {
         let mut sb = Schema::builder();
@@ -477,6 +524,8 @@ impl Sub for Typed {
         }
         let mut model: BTreeMap<(u8, OK), (Term, Vec<u32>)> = BTreeMap::new();
         let mut json_model: BTreeMap<Vec<u8>, (Term, Vec<u32>)> = BTreeMap::new();
+        // (term bytes) -> doc -> positions, for the string leaves of the additional JSON values
+        let mut json_pos_model: BTreeMap<Vec<u8>, (Term, BTreeMap<u32, Vec<u32>>)> = BTreeMap::new();
         let fkey = |x: f64| -> u64 {
             // order-preserving map of f64 (independent re-implementation)
             let b = x.to_bits();
@@ -581,7 +630,40 @@ impl Sub for Typed {
                         e.1.push(d32);
                     }
                 }
+                // positions: per path, every string value occupies [end, end + tokens) and the next value of that path
+                // starts one gap later
+                let mut path_end: BTreeMap<String, u32> = BTreeMap::new();
+                let note = |json_pos_model: &mut BTreeMap<Vec<u8>, (Term, BTreeMap<u32, Vec<u32>>)>, path_end: &mut BTreeMap<String, u32>, key: &str, words: &[String]| {
+                    let start = *path_end.get(key).unwrap_or(&0);
+                    for (i, w) in words.iter().enumerate() {
+                        let mut t = Term::from_field_json_path(fjson, key, false);
+                        t.append_type_and_str(w);
+                        json_pos_model.entry(t.serialized_value_bytes().to_vec()).or_insert_with(|| (t.clone(), BTreeMap::new())).1.entry(d32).or_default().push(start + i as u32);
+                    }
+                    path_end.insert(key.to_string(), start + words.len() as u32 + 1);
+                };
+                for (key, val) in &obj {
+                    if let serde_json::Value::String(sv) = val {
+                        note(&mut json_pos_model, &mut path_end, key, &[sv.clone()]);
+                    }
+                }
                 doc.add_object(fjson, obj.into_iter().map(|(k, v)| (k, OwnedValue::from(v))).collect());
+                for (k, v) in &td.json_more {
+                    let key = format!("k{k}");
+                    let words = vec![format!("w{v}"), format!("w{}", v + 1)];
+                    note(&mut json_pos_model, &mut path_end, &key, &words);
+                    for w in &words {
+                        let mut t = Term::from_field_json_path(fjson, &key, false);
+                        t.append_type_and_str(w);
+                        let e = json_model.entry(t.serialized_value_bytes().to_vec()).or_insert_with(|| (t.clone(), vec![]));
+                        if e.1.last() != Some(&d32) {
+                            e.1.push(d32);
+                        }
+                    }
+                    let mut o2 = serde_json::Map::new();
+                    o2.insert(key, serde_json::Value::String(words.join(" ")));
+                    doc.add_object(fjson, o2.into_iter().map(|(k, v)| (k, OwnedValue::from(v))).collect());
+                }
             }
             wr.add_document(doc).or_fail("add_failed")?;
         }
@@ -641,6 +723,23 @@ impl Sub for Typed {
                 }
                 ensure!(p.doc() == TERMINATED, "posting_list_too_long", "json {k:?}");
             }
+        }
+        // JSON positions across several values of one document
+        {
+            let inv = seg.inverted_index(fjson).or_fail("inverted_index_failed")?;
+            let mut positions = vec![];
+            for (k, (term, per_doc)) in &json_pos_model {
+                let mut p = inv.read_postings(term, IndexRecordOption::WithFreqsAndPositions).or_fail("read_postings_failed")?.ok_or_else(|| Failure::new("json_term_not_found", format!("{k:?}")))?;
+                for (d, ps) in per_doc {
+                    let got = p.seek(*d);
+                    ensure!(got == *d, "posting_doc_differs", "json {k:?}: seek({d}) = {got}");
+                    p.positions(&mut positions);
+                    let mut exp = ps.clone();
+                    exp.sort();
+                    ensure!(positions == exp, "json_positions_differ", "json term {:?} doc {d}: positions {positions:?} expected {exp:?} (several JSON values for one field)", String::from_utf8_lossy(k));
+                }
+            }
+            cx.label_if(c.docs.iter().any(|d| !d.json.is_empty() && !d.json_more.is_empty()), "json_multi_value_positions");
         }
         cx.label_if(longest > 128, "list_len>128");
         cx.label_if(c.docs.iter().any(|d| d.u.iter().any(|x| *x < 4) || d.i.iter().any(|x| *x == i16::MIN || *x == i16::MAX) || d.f.iter().any(|x| *x == i16::MIN || *x == i16::MAX || *x == 1)), "extreme_values");
